@@ -44,6 +44,15 @@ pub fn call_b(op: &str, a: &str, b: &str, m: u32, n: u32, sym: &str, flags: &str
     mk(op, a, b, &[], m, n, sym, &[], flags)
 }
 
+/// symbolic expressions a builder program can pick (index in the step's argument)
+pub const SEQ_SYMS: [&str; 3] = ["f:u+x", "d:go-rx", "a:a=r"];
+/// a builder program call: steps = [(code, argument)], see "chmod_seq" / "chown_seq" / "copy_seq" in `apply`
+pub fn call_seq(op: &str, a: &str, b: &str, steps: &[(u8, u32)]) -> Value {
+    let mut c = mk(op, a, b, &[], 0, 0, "", &[], "");
+    c["ls"] = Value::Array(steps.iter().map(|(k, arg)| json!([*k, (arg / 256) as u8, (arg % 256) as u8])).collect());
+    c
+}
+
 fn s_of(v: &Value) -> String {
     v.as_array().map(|a| a.iter().map(|c| c.as_str().unwrap_or("")).collect::<String>()).unwrap_or_default()
 }
@@ -207,6 +216,53 @@ pub fn apply<V: VirtualFileSystem>(v: &V, c: &Value) -> Value {
                 ch = ch.recurse(false);
             }
             ch.exec()
+        })),
+        // ---- builder programs (last-setter-wins algebra of Chmod / Chown / Copier): c.ls = [[code, hi, lo]..]
+        "chmod_seq" => res_unit(v.chmod_b(&a).and_then(|mut ch| {
+            for st in c["ls"].as_array().unwrap() {
+                let st = b_of(st);
+                let arg = (st[1] as u32) * 256 + st[2] as u32;
+                ch = match st[0] {
+                    1 => ch.all(arg),
+                    2 => ch.dirs(arg),
+                    3 => ch.files(arg),
+                    4 => ch.follow(),
+                    5 => ch.recurse(),
+                    6 => ch.no_recurse(),
+                    7 => ch.sym(SEQ_SYMS[(arg as usize) % SEQ_SYMS.len()]),
+                    8 => ch.readonly(),
+                    _ => ch.secure(),
+                };
+            }
+            ch.exec()
+        })),
+        "chown_seq" => res_unit(v.chown_b(&a).and_then(|mut ch| {
+            for st in c["ls"].as_array().unwrap() {
+                let st = b_of(st);
+                ch = match st[0] {
+                    1 => ch.uid(st[1] as u32),
+                    2 => ch.gid(st[2] as u32),
+                    3 => ch.owner(st[1] as u32, st[2] as u32),
+                    4 => ch.follow(),
+                    5 => ch.recurse(true),
+                    _ => ch.recurse(false),
+                };
+            }
+            ch.exec()
+        })),
+        "copy_seq" => res_unit(v.copy_b(&a, &b).and_then(|mut cp| {
+            for st in c["ls"].as_array().unwrap() {
+                let st = b_of(st);
+                let arg = (st[1] as u32) * 256 + st[2] as u32;
+                cp = match st[0] {
+                    1 => cp.chmod_all(arg),
+                    2 => cp.chmod_dirs(arg),
+                    3 => cp.chmod_files(arg),
+                    4 => cp.follow(true),
+                    _ => cp.follow(false),
+                };
+            }
+            cp.exec()
         })),
         // ---- queries
         "abs" => res_path(v.abs(&a)),
